@@ -498,6 +498,9 @@ LEX_BASE = [
     ('T3', [(False, ['SYSTem', 'ERRor', 'NEXT'], True, [])]),
     ('T3', [(False, ['SYSTem', 'ERRor'], True, []), (False, ['SYSTem', 'ERRor', 'COUNt'], True, [])]),
     ('T3', [(False, ['SYSTem', 'VERSion'], True, [])]),
+    ('T2', [(False, ['Gh1_', 'I2'], False, [b'5']), (True, ['X', 'Y'], True, [])]),
+    ('TY', [(False, ['N2'], False, [b'1', b'-2']), (False, ['N1'], False, [b'3']), (False, ['N0'], False, [])]),
+    ('T1', [(False, ['A', 'S'], False, [b'"x"']), (False, ['K'], False, [b'#11a']), (False, ['C'], False, [])]),
     ('TL', [(False, ['ZZ'], False, []), (True, ['Z_'], False, []), (True, ['Z0'], False, [])]),
     ('TL', [(False, ['MEASure', 'VOLT_AC'], True, []), (False, ['CURRent'], True, [])]),
     ('TL', [(False, ['RANGe_1', 'AUTO'], False, [b'ON'])]),
